@@ -110,6 +110,11 @@ type Sched struct {
 	SelectWaits  int
 	SelectRaces  int
 	SpawnedCount int
+	AtomicPoints int
+
+	// AtomicYields (seam S5): operations of the substituted sync/atomic are
+	// scheduling points. Off unless a harness switches it on for the run.
+	AtomicYields bool
 
 	// StepHook, when set, runs at every scheduling point with the baton held
 	// (before the pick). It may inspect state but must not block or yield.
@@ -638,6 +643,14 @@ func Go(f func()) {
 		return
 	}
 	go f()
+}
+
+// AtomicPoint precedes every operation of the substituted sync/atomic (S5).
+func AtomicPoint() {
+	if s := active.Load(); s != nil && s.AtomicYields {
+		s.AtomicPoints++
+		s.park("atomic", nil)
+	}
 }
 
 // Yield is an always-enabled scheduling point; a no-op without simulation.
